@@ -36,6 +36,8 @@ func (s *shape) String() string {
 		return "map[string]" + s.child.String()
 	case "struct":
 		return "struct{Key " + s.child.String() + "; Name string}"
+	case "struct2":
+		return "struct{Pad int; Name string; Key " + s.child.String() + "}"
 	}
 	return s.kind
 }
@@ -47,7 +49,7 @@ func shapes(maxCons int) []*shape {
 	for d := 1; d <= maxCons; d++ {
 		var next []*shape
 		for _, c := range level {
-			for _, k := range []string{"ptr", "slice", "iface", "map", "struct"} {
+			for _, k := range []string{"ptr", "slice", "iface", "map", "struct", "struct2"} {
 				next = append(next, &shape{kind: k, child: c})
 			}
 		}
@@ -79,6 +81,13 @@ func (s *shape) typ() reflect.Type {
 		return reflect.StructOf([]reflect.StructField{
 			{Name: "Key", Type: s.child.typ()},
 			{Name: "Name", Type: reflect.TypeOf("")},
+		})
+	case "struct2":
+		// same field names at other indexes (a lookup cached per name would go wrong)
+		return reflect.StructOf([]reflect.StructField{
+			{Name: "Pad", Type: reflect.TypeOf(0)},
+			{Name: "Name", Type: reflect.TypeOf("")},
+			{Name: "Key", Type: s.child.typ()},
 		})
 	}
 	panic("shape")
@@ -143,6 +152,13 @@ func (s *shape) values() []reflect.Value {
 		for _, v := range first(4) {
 			x := reflect.New(t).Elem()
 			x.Field(0).Set(v)
+			x.Field(1).SetString("n")
+			out = append(out, x)
+		}
+	case "struct2":
+		for _, v := range first(3) {
+			x := reflect.New(t).Elem()
+			x.Field(2).Set(v)
 			x.Field(1).SetString("n")
 			out = append(out, x)
 		}
